@@ -103,6 +103,8 @@ type State struct {
 	Fresh        map[string]bool // address roots allocated on this path (by term string)
 	Seq          int
 	Panicked     bool
+	PanicVal     Term // value of the panic in flight (Panicked)
+	PanicFromCallee bool // the panic in flight was raised by a callee under contract, not by this function's own code
 	Trace        []string
 	Dead         bool
 	AllHavocs    []allHavoc
@@ -149,6 +151,8 @@ func (s *State) Clone() *State {
 		Fresh:        make(map[string]bool, len(s.Fresh)),
 		Seq:          s.Seq,
 		Panicked:     s.Panicked,
+		PanicVal:     s.PanicVal,
+		PanicFromCallee: s.PanicFromCallee,
 		Trace:        append([]string(nil), s.Trace...),
 		AllHavocs:    append([]allHavoc(nil), s.AllHavocs...),
 		GhostPrev:    append([]ghostStep(nil), s.GhostPrev...),
